@@ -305,7 +305,7 @@ def to_str(component: BinaryStr) -> str:
         return f"sha256digest={component[offset:].hex()}"
     elif typ == TYPE_PARAMETERS_SHA256:
         return f"params-sha256={component[offset:].hex()}"
-    elif typ in ALTERNATE_URI_TYPE:
+    elif typ in ALTERNATE_URI_TYPE and _is_canonical_number(component[offset:]):
         return ALTERNATE_URI_TYPE[typ].format(int.from_bytes(component[offset:], 'big'))
     else:
         ret = ""
@@ -320,6 +320,12 @@ def to_str(component: BinaryStr) -> str:
                 return f"%{val:02X}"
 
         return ret + "".join(decode(val) for val in component[offset:])
+
+
+def _is_canonical_number(value: BinaryStr) -> bool:
+    # Only a value that from_number() would produce can be written as ``seg=N`` etc.;
+    # anything else must keep the generic form, otherwise from_str(to_str(c)) != c.
+    return len(value) in (1, 2, 4, 8) and bytes(value) == pack_uint_bytes(int.from_bytes(value, 'big'))
 
 
 def to_canonical_uri(component: BinaryStr) -> str:
